@@ -407,9 +407,10 @@ def check_time_solve(ctx, cuqi, rng, ncases, bump):
                     ctx.note(f"implementation returns a correct solution where the pinned code raised UnboundLocalError: {desc['method']} nt={len(ts)}")
                 else:
                     ctx.disagree(key, desc, out, f"ok {short(u)}", "model refuses, implementation returns")
-                    if oracle_bad is None:
-                        # a silent result on an input the code used to refuse: examine it as a failure of the refusal contract
-                        ctx.fail(key, desc, f"refusal ({mcls})", f"returned {short(u)}", "input the time stepper refuses now yields a value")
+                    if oracle_bad is None and mclass == "invalid":
+                        # documented contract of the setter: only the two Euler methods exist; a value for anything else has no recurrence to satisfy
+                        ctx.fail(key, desc, "ValueError: method can be set to either `forward_euler` or `backward_euler`", f"returned {short(u)}",
+                                 "a time-stepping method that is neither Euler method is accepted and produces a solution")
             elif impl_err != mcls:
                 if {impl_err, mcls} <= {"UnboundLocalError", "IndexError", "SolverError", "ValueError"} and False:
                     pass
@@ -426,11 +427,18 @@ def check_time_solve(ctx, cuqi, rng, ncases, bump):
         levels = np.array([[float(x) for x in r] for r in pm(toks[1])], dtype=float).reshape(len(ts), n)
         if not arr_same(levels.T, u):
             ctx.disagree(key, desc, short(levels.T), short(u), "stored levels differ")
-            if oracle_bad is None:
-                ctx.fail(key, desc, "levels of the exact recurrence", short(u), "levels differ from the exact recurrence although residual small (ill-conditioned case?)")
         if not info_matches(toks[2], info):
             ctx.disagree(key + ":info", desc, toks[2], repr(info), "info differs")
-            ctx.fail(key + ":info", desc, "info = extra return values of the last linear solve (None for forward Euler / plain solvers)", repr(info),
+        # oracle for info (independent of the model): what the user's solver returned after the solution in the last solve
+        want_info = None
+        if method == "backward_euler" and len(ts) >= 2 and skind in ("t1", "t2", "t3"):
+            dtl = ts[-1] - ts[-2]
+            Al, bl, _ = fam_eval(F, p, ts[-1])
+            rhs0 = float(u[0, -2] + dtl * bl[0]); a00 = float(1.0 - dtl * Al[0, 0])
+            want_info = {"t1": (), "t2": (rhs0,), "t3": (rhs0, a00)}[skind]
+        ok_info = (info is None) if want_info is None else (isinstance(info, tuple) and len(info) == len(want_info) and all(close(a, b, 1e-8) for a, b in zip(info, want_info)))
+        if not ok_info:
+            ctx.fail(key + ":info", desc, f"info = {want_info!r} (the solver's extra return values of the last solve; None if there are none)", repr(info),
                      "extra return values of the linear solver are not reported as info")
         mcalls = [float(x) for x in pv(toks[3])]
         if mcalls != calls:
@@ -519,8 +527,6 @@ def check_steady_solve(ctx, cuqi, rng, ncases, bump):
             if mo.startswith("err:"):
                 if impl_err is None:
                     ctx.disagree(key, desc, mo, short(u), "model refuses, implementation returns")
-                    if not oracle_bad:
-                        ctx.fail(key, desc, "refusal " + mo, short(u), "input the solver path refuses now yields a value")
                 elif impl_err != mo[4:]:
                     ctx.note(f"exception class differs (both refuse): model {mo} impl {impl_err} at steady {desc['ops']}")
                 continue
@@ -532,11 +538,13 @@ def check_steady_solve(ctx, cuqi, rng, ncases, bump):
             um = np.array([float(x) for x in pv(toks[1])])
             if not arr_same(um, u):
                 ctx.disagree(key, desc, short(um), short(u), "solution differs")
-                if not oracle_bad:
-                    ctx.fail(key, desc, short(um), short(u), "solution differs from the exact solution although the residual is small")
             if not info_matches(toks[2], info):
                 ctx.disagree(key + ":info", desc, toks[2], repr(info), "info differs")
-                ctx.fail(key + ":info", desc, "info = tuple of the solver's extra return values (None if it returns only the solution)", repr(info),
+            A_, b_, _ = fam_eval(F, cur, 0.0)
+            want_info = {"t1": (), "t2": (float(b_[0]),), "t3": (float(b_[0]), float(A_[0, 0]))}.get(skind)
+            ok_info = (info is None) if want_info is None else (isinstance(info, tuple) and len(info) == len(want_info) and all(close(a, b, 1e-9) for a, b in zip(info, want_info)))
+            if not ok_info:
+                ctx.fail(key + ":info", desc, f"info = {want_info!r} (the solver's extra return values; None if it returns only the solution)", repr(info),
                          "extra return values of the linear solver are not reported as info")
 
 
@@ -583,11 +591,24 @@ def check_grids(ctx, cuqi, rng, ncases):
                 bad = (e, s, o)
         if bad is not None:
             ctx.fail(key, desc, "grids_equal == (grid_sol and grid_obs hold the same nodes)", repr(bad), "grids_equal flag is stale after a grid assignment")
+        # stored grids: grid_sol is what was assigned last; grid_obs is what was assigned last, an assigned None meaning
+        # "the solution grid (as it is at that moment)"
+        es, eo = None, None
+        same = lambda x, y: (x is None and y is None) or (x is not None and y is not None and len(x) == len(y) and bool(np.all(np.asarray(x) == np.asarray(y))))
+        for (o, a, b), (e, s_, o_) in zip(ops, states):
+            if o == "init":
+                es = a; eo = b if b is not None else es
+            elif o == "sol":
+                es = a
+            else:
+                eo = a if a is not None else es
+            if not (same(es, s_) and same(eo, o_)) and bad is None:
+                bad = (s_, o_)
+                ctx.fail(key, desc, f"grid_sol={None if es is None else es.tolist()} grid_obs={None if eo is None else eo.tolist()}",
+                         f"grid_sol={None if s_ is None else np.asarray(s_).tolist()} grid_obs={None if o_ is None else np.asarray(o_).tolist()}",
+                         "stored grids are not the ones assigned (grid_obs=None must mean the solution grid)")
         if impl != out:
             ctx.disagree(key, desc, out, impl, "grid attributes after the setter sequence differ")
-            if bad is None:
-                # same flag semantics, different stored grids: decide by the defaulting rule grid_obs=None -> grid_sol
-                ctx.fail(key, desc, out, impl, "grid_obs=None no longer defaults to the solution grid (or stored grids differ)")
 
 
 # ----------------------------------------------------------------------------------------------- D. observe (time dependent)
@@ -801,23 +822,16 @@ def check_observe_time(ctx, cuqi, rng, ncases, bump):
         if out.startswith("err:"):
             if impl_err is None:
                 ctx.disagree(key, desc, out, short(got), "model refuses (constructor), implementation returns")
-                if not oracle_bad:
-                    ctx.fail(key, desc, "refusal " + out, short(got), "time_obs the constructor refuses now yields a value")
             continue
         br, mo = out.split(" ")
         if cs["ndim"] == 3:
             want_err = (br == "refuse")
             if want_err != (impl_err is not None):
                 ctx.disagree(key, desc, br, impl_err or short(got), "refusal of interpolation for a higher-dimensional solution differs")
-                if not oracle_bad:
-                    ctx.fail(key, desc, "ValueError (interpolation of 2D/3D solutions unsupported)" if want_err else "last time slice", impl_err or short(got),
-                             "higher-dimensional solution handled differently")
             continue
         if mo.startswith("err:"):
             if impl_err is None:
                 ctx.disagree(key, desc, mo, short(got), "model refuses, implementation returns")
-                if not oracle_bad:
-                    ctx.fail(key, desc, "refusal " + mo, short(got), "input the observation refuses now yields a value")
             continue
         if impl_err is not None:
             ctx.disagree(key, desc, mo[:100], "err:" + impl_err, "implementation refuses, model returns")
@@ -826,8 +840,6 @@ def check_observe_time(ctx, cuqi, rng, ncases, bump):
         am = parse_arr(mo)
         if not arr_same(am, got):
             ctx.disagree(key, desc, short(am), short(got), "observation differs")
-            if not oracle_bad:
-                ctx.fail(key, desc, short(am), short(got), "observation differs from the modelled pipeline (branch/restriction/map/squeeze)")
 
 
 # ----------------------------------------------------------------------------------------------- E. observe (steady)
@@ -897,8 +909,6 @@ def check_observe_steady(ctx, cuqi, rng, ncases, bump):
         if mo.startswith("err:"):
             if impl_err is None:
                 ctx.disagree(key, desc, mo, short(got), "model refuses, implementation returns")
-                if not oracle_bad:
-                    ctx.fail(key, desc, "refusal " + mo, short(got), "input the observation refuses now yields a value")
             continue
         if impl_err is not None:
             ctx.disagree(key, desc, mo[:100], "err:" + impl_err, "implementation refuses, model returns")
@@ -907,8 +917,6 @@ def check_observe_steady(ctx, cuqi, rng, ncases, bump):
         am = parse_arr(mo)
         if not arr_same(am, got):
             ctx.disagree(key, desc, short(am), short(got), "observation differs")
-            if not oracle_bad:
-                ctx.fail(key, desc, short(am), short(got), "observation differs from the modelled pipeline")
 
 
 # ----------------------------------------------------------------------------------------------- F. PDEModel pipeline
@@ -1039,16 +1047,30 @@ def check_pipeline(ctx, cuqi, rng, ncases, bump):
         if not res <= TOL:
             oracle_bad = True
             ctx.fail(key, desc, "discrete equations satisfied", f"scaled residual {res:.3e}", "solution inside PDEModel.forward violates the discrete equations")
+        # oracle 3: the output is that solution restricted to the observation grid/times (scipy's interpolant off the nodes), mapped, squeezed
+        if cs["kind"] == "steady":
+            gsl = cs["gs"].tolist()
+            exp = np.array([cs["sol"][gsl.index(v)] if v in gsl else (cs["W"][a] if cs["W"] is not None else np.nan) for a, v in enumerate(cs["go_eff"])])
+            one_time = False
+        else:
+            exp = expected_observation(cs["gs"], cs["ts"], cs["sol"], cs["go_eff"], cs["tres"], cs["W"]) if "tres" in cs else None
+            one_time = "tres" in cs and len(cs["tres"]) == 1
+        if exp is not None and not np.isnan(exp).any():
+            try:
+                e2 = exp if cs["om"] is None else np.asarray(cs["om"](exp), dtype=float)
+                if one_time:
+                    e2 = e2.squeeze()
+            except Exception:
+                e2 = None
+            if e2 is not None and not arr_same(e2, y):
+                oracle_bad = True
+                ctx.fail(key, desc, "solution restricted to grid_obs/time_obs, mapped: " + short(e2), short(y), "PDEModel.forward is not the observation of the solution it computed")
         if out.startswith("err:"):
             ctx.disagree(key, desc, out, short(y), "model refuses, implementation returns")
-            if not oracle_bad:
-                ctx.fail(key, desc, "refusal " + out, short(y), "pipeline input the model refuses yields a value")
             continue
         am = parse_arr(out)
         if not arr_same(am, y):
             ctx.disagree(key, desc, short(am), short(y), "forward output differs")
-            if not oracle_bad:
-                ctx.fail(key, desc, short(am), short(y), "PDEModel.forward differs from the exact assemble-solve-observe pipeline")
 
 
 # ----------------------------------------------------------------------------------------------- G. gradient dispatch
@@ -1151,8 +1173,6 @@ def check_gradient(ctx, cuqi, rng, ncases):
         if out.startswith("err:"):
             if impl_err is None:
                 ctx.disagree(key, desc, out, short(got), "model refuses, implementation returns")
-                if not oracle_bad:
-                    ctx.fail(key, desc, "NotImplementedError (PDE has neither gradient nor Jacobian)", short(got), "gradient returned for a PDE without gradient/Jacobian")
             elif impl_err != out[4:]:
                 ctx.note(f"exception class differs (both refuse) in gradient: {out} vs {impl_err}")
             continue
@@ -1163,8 +1183,6 @@ def check_gradient(ctx, cuqi, rng, ncases):
         gm = np.array([float(x) for x in pv(out)])
         if not arr_same(gm, got):
             ctx.disagree(key, desc, short(gm), short(got), "gradient differs from the dispatch rule")
-            if not oracle_bad:
-                ctx.fail(key, desc, short(gm), short(got), "PDEModel.gradient does not follow gradient_wrt_parameter / direction @ jacobian_wrt_parameter")
 
 
 # ----------------------------------------------------------------------------------------------- H. shipped test problems
@@ -1203,6 +1221,7 @@ def check_testproblems(ctx, cuqi, rng, thorough):
                     pde.assemble(x)
                     sol, _ = pde.solve()
                     sol = np.asarray(sol, dtype=float)
+                    manual = np.asarray(pde.observe(sol), dtype=float)
             except Exception as e:  # noqa
                 if obsmap == "off" and dim <= 5:
                     ctx.note(f"{name}(dim={dim}, off-node grid) refused by scipy (too few nodes): {type(e).__name__}")
@@ -1212,6 +1231,16 @@ def check_testproblems(ctx, cuqi, rng, thorough):
                 continue
             ctx.case("testproblem", desc)
             gs = np.asarray(pde.grid_sol, dtype=float); go = np.asarray(pde.grid_obs, dtype=float)
+            if not arr_same(manual, y, 1e-12):
+                ctx.fail(key, desc, "observe(solve(assemble(x))[0]) = " + short(manual), short(y), "test problem's model.forward is not the assemble-solve-observe pipeline of its PDE")
+            # the observation is the final solution on the observation grid (exact on coinciding nodes)
+            fin = sol if sol.ndim == 1 else sol[:, -1]
+            gsl = gs.tolist()
+            for a, v in enumerate(go.tolist()):
+                if v in gsl and not close(float(np.asarray(y).ravel()[a]), float(fin[gsl.index(v)]), 1e-9):
+                    ctx.fail(key, desc, f"y[{a}] = solution at node {v} = {fin[gsl.index(v)]}", float(np.asarray(y).ravel()[a]),
+                             "test problem's observation at a coinciding node is not the solution value")
+                    break
             if name == "Poisson1D":
                 A, b = pde.PDE_form(x)
                 n = len(b)
@@ -1252,13 +1281,9 @@ def check_testproblems(ctx, cuqi, rng, thorough):
                 ctx.fail(key, desc, "discrete equations satisfied", f"scaled residual {res:.3e}", "test problem's solution violates its discrete equations")
             if out.startswith("err:"):
                 ctx.disagree(key, desc, out, short(y), "model refuses, implementation returns")
-                if not bad:
-                    ctx.fail(key, desc, out, short(y), "test problem forward where the model refuses")
                 continue
             am = parse_arr(out)
             if not arr_same(am, y, 1e-8):
                 ctx.disagree(key, desc, short(am), short(y), "forward output of the shipped problem differs")
-                if not bad:
-                    ctx.fail(key, desc, short(am), short(y), "test problem's forward is not the exact assemble-solve-observe pipeline of its PDE")
     finally:
         np.random.set_state(state)
